@@ -24,7 +24,7 @@ def gen_block(rng, anns_pool=()):
     if rng.random() < 0.3:
         b['stability'] = (rng.choice(STAB), rng.choice([None, None, 'stability text']))
     if rng.random() < 0.3:
-        b['attrs'] = [('org.k%d' % i, rng.choice(['v', 'some.value', '1'])) for i in range(rng.randint(1, 2))]
+        b['attrs'] = [('org.k%d' % i, rng.choice(['v', 'some.value', '1', 'https://example.org/ref?id=7', 'a==b'])) for i in range(rng.randint(1, 2))]
     for name, values in anns_pool:
         if rng.random() < 0.45:
             b['anns'].append((name, [rng.choice(values)]))
@@ -192,7 +192,62 @@ def gen_world(rng):
             b = gen_block(rng, [('emitter', ['emit_it'])])
             blocks.append(('FooObj::%s' % sg, b, render_block('FooObj::%s' % sg, b)))
         elems.append(('ESignal', 'SSignal', 'FooObj', sg, ('signal', 'Obj', sg)))
-    return dict(syms=syms, blocks=blocks, elems=elems, dump=dump, fnames=fnames, renames=renames, mnames=mnames, mrenames=mrenames)
+    # the class structure: three virtual methods; their invoker methods are found by name (same) or named by (virtual SLOT)
+    # (do_it -> it_slot); a virtual method without a block of its own inherits from its invoker's block
+    def member_cb(name, params, line):
+        return S.FS(S.CSYMBOL_TYPE_MEMBER, name, base_type=S.ptr(S.FT(S.CTYPE_FUNCTION, base_type=S.td('gint'), child_list=params)), line=line)
+    selfp = lambda: S.param('self', S.ptr(S.td('FooObj')))
+    syms += [S.FS(S.CSYMBOL_TYPE_TYPEDEF, 'FooObjClass', base_type=S.FT(S.CTYPE_STRUCT, '_FooObjClass'), line=320),
+             S.FS(S.CSYMBOL_TYPE_STRUCT, '_FooObjClass', base_type=S.FT(S.CTYPE_STRUCT, '_FooObjClass', child_list=[
+                 S.FS(S.CSYMBOL_TYPE_MEMBER, 'parent_class', base_type=S.td('GObjectClass'), line=321),
+                 member_cb('same', [selfp(), S.param('x', S.td('gint'))], 322), member_cb('it_slot', [selfp(), S.param('x', S.td('gint'))], 323),
+                 member_cb('lonely', [selfp()], 324)]), line=321),
+             S.func('foo_obj_same', S.td('gint'), [selfp(), S.param('x', S.td('gint'))], line=330),
+             S.func('foo_obj_do_it', S.td('gint'), [selfp(), S.param('x', S.td('gint'))], line=331)]
+    vf = {}
+    for slot, method, via in (('same', 'foo_obj_same', None), ('it_slot', 'foo_obj_do_it', 'it_slot'), ('lonely', None, None)):
+        own = inv = None
+        r = rng.random()
+        if r < 0.3:
+            own = gen_block(rng)
+            own['skip'] = False
+            blocks.append(('FooObjClass::%s' % slot, own, render_block('FooObjClass::%s' % slot, own, ['self'] + (['x'] if slot != 'lonely' else []))))
+        if method and (via or rng.random() < 0.8):
+            inv = gen_block(rng)
+            inv['skip'] = False
+            if via:
+                inv['anns'] = [('virtual', [via])]
+            blocks.append((method, inv, render_block(method, inv, ['self', 'x'])))
+        vf[slot] = dict(own=own, invoker_block=inv, method=method)
+    return dict(syms=syms, blocks=blocks, elems=elems, dump=dump, fnames=fnames, renames=renames, mnames=mnames, mrenames=mrenames, vfuncs=vf)
+
+
+def tag_clauses(ck, S, el, b, case):
+    """the texts of Since/Deprecated/Stability, the description and the free-form attributes of block b on element el"""
+    def text(tag):
+        ch = el.find(S.CORE + tag)
+        return None if ch is None else ch.text
+    if b['deprecated'] and b['deprecated'][1] and text('doc-deprecated') != b['deprecated'][1]:
+        ck.failing_input('the text of Deprecated: is not the deprecation text of the documented element', case,
+                         detail=dict(expected=b['deprecated'][1], doc_deprecated=text('doc-deprecated')))
+    if b['deprecated'] and b['deprecated'][0] and el.get('deprecated-version') != b['deprecated'][0]:
+        ck.failing_input('the version of Deprecated: is not the deprecated-version of the documented element', case, detail=el.attrib)
+    if b['since'] and b['since'][1] and text('doc-version') != b['since'][1]:
+        ck.failing_input('the text of Since: is not kept with the documented element', case,
+                         detail=dict(expected=b['since'][1], doc_version=text('doc-version')))
+    if b['stability'] and el.get('stability') != b['stability'][0]:
+        ck.failing_input('Stability: does not become the stability of the documented element', case, detail=el.attrib)
+    if b['stability'] and b['stability'][1] and text('doc-stability') != b['stability'][1]:
+        ck.failing_input('the text of Stability: is not kept with the documented element', case,
+                         detail=dict(expected=b['stability'][1], doc_stability=text('doc-stability')))
+    if b['desc'] and text('doc') != b['desc']:
+        ck.failing_input('the description is not the documentation of the documented element', case,
+                         detail=dict(expected=b['desc'], doc=text('doc')))
+    got = [(a.get('name'), a.get('value')) for a in el.findall(S.CORE + 'attribute')]
+    for kv in b['attrs']:
+        if kv not in got:
+            ck.failing_input('a free-form attribute of the block is not an attribute element of the documented element', case,
+                             detail=dict(expected=kv, attributes=got))
 
 
 def find_el(ns, S, finder):
@@ -268,10 +323,30 @@ def main(tier, seed):
                     ck.failing_input('Deprecated: does not mark the documented element deprecated', case, detail=el.attrib)
                 if b['skip'] and el.get('introspectable') != '0':
                     ck.failing_input('(skip) does not make the documented element non-introspectable', case, detail=el.attrib)
+                tag_clauses(ck, S, el, b, case)
                 if sub == 'SConstant':
                     v = dict(b['anns']).get('value')
                     if v and el.get('value') != v[0]:
                         ck.failing_input('(value) does not override the constant', case, detail=el.attrib)
+        # virtual methods: own block, else the invoker's block; the invoker is named
+        cls = find_el(ns, S, ('class', 'Obj'))
+        vms = {v.get('name'): v for v in (cls.findall(S.CORE + 'virtual-method') if cls is not None else [])}
+        for slot, info in w['vfuncs'].items():
+            v = vms.get(slot)
+            case = dict(virtual_method=slot, own_block=None if info['own'] is None else render_block('FooObjClass::' + slot, info['own']),
+                        invoker=info['method'], invoker_block=None if info['invoker_block'] is None else render_block(info['method'], info['invoker_block']))
+            if v is None:
+                ck.failing_input('a function-pointer member of the class structure taking the object did not become a virtual method', case)
+                continue
+            if info['method'] and v.get('invoker') != info['method'][len('foo_obj_'):]:
+                ck.failing_input('a virtual method does not name its invoker', case, detail=v.attrib)
+            if info['own'] is not None and info['invoker_block'] is None:
+                tag_clauses(ck, S, v, info['own'], case)
+            elif info['own'] is None and info['invoker_block'] is not None:
+                tag_clauses(ck, S, v, info['invoker_block'], dict(case, rule='a virtual method without a block of its own inherits from its invoker'))
+            elif info['own'] is None and info['invoker_block'] is None:
+                if any(v.get(a) for a in ('version', 'deprecated', 'stability')) or v.findall(S.CORE + 'attribute'):
+                    ck.failing_input('a virtual method without any block carries version/deprecation/stability/attributes', case, detail=v.attrib)
         fns = clist(['{| f_name := %s; f_symbol := %s; f_shadows := None; f_shadowed_by := None |}' % (cstr(f), cstr('foo_' + f)) for f in w['fnames']]
                     + ['{| f_name := %s; f_symbol := %s; f_shadows := None; f_shadowed_by := None |}' % (cstr(f), cstr('foo_rec0_' + f)) for f in w['mnames']])
         shown = []
